@@ -197,7 +197,8 @@ pub fn replay_file(value: &Value) -> i32 {
 // -------------------------------------------------------------------------------------------------
 
 #[derive(Clone, Copy, Debug, PartialEq, Eq, Hash)]
-enum Outcome { Refused, HandshakeFailed, Connected(u64) }
+enum Outcome { Refused, HandshakeFailed, Connected(u64), /// (time between transport connect and CONNACK, lifetime after CONNACK)
+    SlowConnected(u64, u64) }
 
 fn reference_norm(base: Duration, max: Duration) -> (Duration, Duration) {
     let (mut b, mut m) = (base, max);
@@ -245,6 +246,11 @@ pub fn run_c19(tier: Tier) -> i32 {
             lifetimes.sort(); lifetimes.dedup();
             let mut alphabet = vec![Outcome::Refused, Outcome::HandshakeFailed];
             for l in &lifetimes { alphabet.push(Outcome::Connected(*l)); }
+            // a slow handshake followed by a short life: handshake + lifetime exceeds the stability period, the lifetime alone does not
+            if stab_ns > 0 && *stability < Duration::from_secs(400 * 86400) {
+                let establish = stab_ns.min(2_000_000_000);
+                alphabet.push(Outcome::SlowConnected(establish, stab_ns - establish + 1));
+            }
             // depth-first over all outcome sequences up to `length`; each node re-executes its prefix on a fresh client
             let mut stack: Vec<Vec<Outcome>> = vec![Vec::new()];
             while let Some(seq) = stack.pop() {
@@ -257,6 +263,7 @@ pub fn run_c19(tier: Tier) -> i32 {
                             Outcome::Refused => { events.push(LEv::ConnectErr); }
                             Outcome::HandshakeFailed => { events.extend([LEv::ConnectOk, LEv::Service, LEv::WriteAll, LEv::Read(Reply::ConnackFail)]); }
                             Outcome::Connected(ns) => { events.extend([LEv::ConnectOk, LEv::Service, LEv::WriteAll, LEv::Read(Reply::ConnackOk), LEv::Idle(*ns), LEv::ReadEof]); }
+                            Outcome::SlowConnected(establish, ns) => { events.extend([LEv::ConnectOk, LEv::Service, LEv::WriteAll, LEv::Idle(*establish), LEv::Read(Reply::ConnackOk), LEv::Idle(*ns), LEv::ReadEof]); }
                         }
                         events.push(LEv::Timer);
                     }
@@ -265,7 +272,7 @@ pub fn run_c19(tier: Tier) -> i32 {
                     // reference recurrence
                     let mut k = 0u32; let mut expected = Vec::new();
                     for o in &seq {
-                        if let Outcome::Connected(ns) = o { if Duration::from_nanos(*ns) > *stability { k = 0; } }
+                        if let Outcome::Connected(ns) | Outcome::SlowConnected(_, ns) = o { if Duration::from_nanos(*ns) > *stability { k = 0; } }
                         expected.push(reference_wait(nb, nm, k));
                         k += 1;
                     }
@@ -279,7 +286,7 @@ pub fn run_c19(tier: Tier) -> i32 {
                             if !ok && problem.is_none() {
                                 let class = if *base > *max { "base>max" } else if *max < Duration::from_secs(1) { "max<1s" } else { "ordered" };
                                 let kind = if !*jitter { if got > &nm { "exceeds effective maximum" } else if got > want { "too long" } else { "too short" } } else { "jittered wait above the bound" };
-                                problem = Some((format!("C19 wait-{} ({}, attempt index {}{})", kind.replace(' ', "-"), class, i.min(3), if matches!(seq.get(i), Some(Outcome::Connected(_))) { ", after a connection" } else { "" }), format!("config {}: outcomes {:?}: waits {:?}, reference {:?}", name, seq, w.waits, expected)));
+                                problem = Some((format!("C19 wait-{} ({}, attempt index {}{})", kind.replace(' ', "-"), class, i.min(3), if matches!(seq.get(i), Some(Outcome::Connected(_)) | Some(Outcome::SlowConnected(_, _))) { ", after a connection" } else { "" }), format!("config {}: outcomes {:?}: waits {:?}, reference {:?}", name, seq, w.waits, expected)));
                             }
                         }
                     }
